@@ -26,7 +26,8 @@ class GraphQLError(Exception):
         self.message = message
 
     def __str__(self) -> str:
-        return self.message
+        # The message is not necessarily a string (e.g. another exception).
+        return str(self.message)
 
 
 class GraphQLResponseError(GraphQLError):
@@ -155,7 +156,7 @@ class GraphQLLocatedError(GraphQLResponseError):
         self.nodes = list(nodes[:]) if nodes else []  # type: List[_ast.Node]
 
     def __str__(self) -> str:
-        return self.message
+        return str(self.message)
 
     def to_dict(self) -> Dict[str, Any]:
         kv = (
